@@ -41,3 +41,11 @@ Print Assumptions C13_not_early.
 Theorem C13_linger_before_writer : start_sets_linger_before_writer = true.
 Proof. reflexivity. Qed.
 Print Assumptions C13_linger_before_writer.
+
+(** an update of reset_peer's timeout (or slow_close's delay) reaches the connections that are open: every
+    accepted update restarts the toxic's stage on every connection, whatever it changed (regenerated:
+    the attribute write, the toxicity write and chainUpdateToxic are statements of one block) - a
+    reset_peer stage reads its timeout when it starts *)
+Theorem C13_update_reaches_open_connections : update_always_restarts = true /\ update_writes_before_interrupt = true.
+Proof. split; reflexivity. Qed.
+Print Assumptions C13_update_reaches_open_connections.
